@@ -10,10 +10,11 @@ import (
 // labelled switch on top of a W bundle. Kinds marked "unresolvable" make some $ref impossible to
 // resolve: Flatten must then return an error (ContinueOnError is off).
 var WPlusKinds = []string{
-	"dangling-local-definition", // unresolvable
-	"dangling-remote-file",      // unresolvable
-	"dangling-remote-fragment",  // unresolvable
-	"dangling-pointer",          // unresolvable
+	"dangling-local-definition",          // unresolvable
+	"dangling-remote-file",               // unresolvable
+	"dangling-remote-fragment",           // unresolvable
+	"dangling-pointer",                   // unresolvable
+	"dangling-pointer-to-absent-keyword", // unresolvable
 	"back-reference-to-root",
 	"pointer-to-operation-schema",
 	"pointer-to-nested-inline",
@@ -30,7 +31,7 @@ var WPlusKinds = []string{
 
 func Unresolvable(kind string) bool {
 	switch kind {
-	case "dangling-local-definition", "dangling-remote-file", "dangling-remote-fragment", "dangling-pointer":
+	case "dangling-local-definition", "dangling-remote-file", "dangling-remote-fragment", "dangling-pointer", "dangling-pointer-to-absent-keyword":
 		return true
 	}
 	return false
@@ -43,6 +44,9 @@ type WPlusCase struct {
 	// RawRoot, when set, is served as the root document instead of the serialisation of Root
 	// (byte-level fuzzing: duplicate keys, odd numbers, key order are preserved).
 	RawRoot string `json:"rawRoot,omitempty"`
+	// NoProbe skips the New/Schema probing that normally precedes Flatten (regression cases that are
+	// about Flatten itself on a document on which Schema has an open finding).
+	NoProbe bool `json:"noProbe,omitempty"`
 }
 
 func holderPath(root O, i int, ref O) {
@@ -91,7 +95,12 @@ func GenWPlusCase(d *D, cfg BundleCfg, allowed []string) *WPlusCase {
 		case "dangling-pointer":
 			defs := ensureDefs(root)
 			defs["dp"] = O{"type": "object", "properties": O{"a": O{"type": "string"}}}
-			holderPath(root, i, O{"$ref": "#/definitions/dp/properties/nope"})
+			holderPath(root, i, O{"$ref": "#/definitions/dp/" + d.Pick([]string{"properties/nope", "allOf/0", "items/0", "definitions/x"})})
+		case "dangling-pointer-to-absent-keyword":
+			// a pointer to a schema keyword (held in a pointer field of the model) that the target does not have
+			defs := ensureDefs(root)
+			defs["dk"] = O{"type": "object", "properties": O{"a": O{"type": "string"}}}
+			holderPath(root, i, O{"$ref": "#/definitions/dk/" + d.Pick([]string{"additionalProperties", "items", "not", "additionalItems"})})
 		case "back-reference-to-root":
 			// an auxiliary definition referring back to a root definition, reached from the root
 			defs := ensureDefs(root)
